@@ -192,11 +192,14 @@ def _objarr(a):
 
 
 def _py(x):
-    if isinstance(x, np.floating):
+    from .sreal import Q
+    if isinstance(x, (np.floating, float)):
         f = float(x)
-        return int(f) if f == int(f) and abs(f) < 2 ** 53 else f
-    if isinstance(x, float):
-        return int(x) if x == int(x) and abs(x) < 2 ** 53 and x == x else x
+        if f != f or f in (float('inf'), float('-inf')):
+            return f
+        if not ENG.active:
+            return int(f) if (f == int(f) and abs(f) < 2 ** 53) else f
+        return Q(f)
     if isinstance(x, np.integer):
         return int(x)
     if isinstance(x, np.bool_):
